@@ -85,12 +85,16 @@ type vTokenResp struct {
 	IDToken     string `json:"id_token"`
 }
 
+// the name under which the token request reaches the server (Host header): clients use whatever name resolves - an alias,
+// an address, the name of a proxy in front; what the server says about ITSELF (issuer) does not depend on it
+var vRedeemHost string
+
 func (w *vWorld) redeem(code, client, secret, verifier, redirect, via string) (vResp, vTokenResp) {
 	form := url.Values{"grant_type": {"authorization_code"}, "redirect_uri": {redirect}, "code": {code}}
 	if verifier != "" {
 		form.Set("code_verifier", verifier)
 	}
-	q := vReq{Method: "POST", Path: idpOpenIDCTokenPath, Form: form}
+	q := vReq{Method: "POST", Path: idpOpenIDCTokenPath, Form: form, Host: vRedeemHost}
 	if via == "header" {
 		q.Basic = []string{client, secret}
 	} else {
@@ -479,7 +483,11 @@ func runC12(t *testing.T, cases []map[string]interface{}, ev *vEvents) {
 		if vStr(c, "redirect") == "different" {
 			redirect = "https://other.example.org/cb"
 		}
+		if vStr(c, "via") == "form" {
+			vRedeemHost = "km-alias.internal.example:8443"
+		}
 		r, tr := w.redeem(code, clientID[caller], secret, verifier, redirect, vStr(c, "via"))
+		vRedeemHost = ""
 		released := r.Status == 200 && (tr.IDToken != "" || tr.AccessToken != "")
 		tk := map[string]interface{}{"iss": "", "aud": []string{}, "sub": "", "nonce": "", "verifies": false, "expafterauth": 0, "userinfo": ""}
 		if released {
